@@ -53,4 +53,24 @@ RegCodec(proto, c) ==
   ELSE (CASE c = 0 -> "GSM 7-bit (Unpacked)" [] c = 99 -> "GSM 7-bit (Packed)" [] c = 1 -> "ASCII" [] c = 3 -> "LATIN1" [] c = 8 -> "UCS2")
 \* single-message limit and part size, in the units of the codec (septets for GSM 7-bit, octets otherwise)
 RegLimits(codec) == IF codec \in {"GSM 7-bit (Unpacked)", "GSM 7-bit (Packed)"} THEN <<160, 153>> ELSE <<140, 134>>
+
+\* ---- exported odds and ends
+\* 32-bit numbers travel as <<high 16 bits, low 16 bits>>; W16(b, i): the 16-bit word at octets i, i+1
+W16(b, i) == b[i] * 256 + b[i + 1]
+HdrFields(b) == << W16(b, 1), W16(b, 3), W16(b, 5), W16(b, 7), W16(b, 9), W16(b, 11) >>     \* length, command, sequence
+\* decimal text of hi * 65536 + lo without leaving 31 bits
+RECURSIVE DecDigits(_)
+DecDigits(n) == IF n < 10 THEN <<48 + n>> ELSE DecDigits(n \div 10) \o <<48 + (n % 10)>>
+\* (hi*65536 + lo) = q * 10000 + r with q < 429497: q = hi*6 + (hi*5536 + lo) \div 10000 ...
+Dec32(hi, lo) ==
+  LET t == (hi * 5536) + lo            \* < 2^31
+      q == (hi * 6) + (t \div 10000)
+      r == t % 10000
+  IN IF q = 0 THEN DecDigits(r)
+     ELSE DecDigits(q) \o <<48 + (r \div 1000), 48 + ((r \div 100) % 10), 48 + ((r \div 10) % 10), 48 + (r % 10)>>
+HexDigit(n) == IF n < 10 THEN 48 + n ELSE 87 + n
+RECURSIVE HexOf(_)
+HexOf(b) == IF b = <<>> THEN <<>> ELSE <<HexDigit(Head(b) \div 16), HexDigit(Head(b) % 16)>> \o HexOf(Tail(b))
+\* the ten CMPP commands that have a name (request 1, 2, 4, 5, 8 and their responses)
+NamedCmd(hi, lo) == hi \in {0, 32768} /\ lo \in {1, 2, 4, 5, 8}
 =============================================================================
